@@ -21,6 +21,15 @@
 (* outside its alphabet, failed or not (the driver needs it to judge what the    *)
 (* Go-side round trip of a random record saw).  An event whose `wire' is not one *)
 (* well-framed record is a harness bug: VP:ill (register 3).                     *)
+(* ZONE events (`zone' present): a SEQUENCE of records.  text = the real        *)
+(* String() of each record, one per line; wires = the real PackRR of each, in   *)
+(* order; hks = the decoded exotic items of each line.  The statement's "the     *)
+(* text is accepted by the zone parser" read at the level of a zone: the lexer   *)
+(* finds exactly as many entries as there are records (no text ends its entry    *)
+(* early or runs into the next line), and entry i read by the reader is record   *)
+(* i (adjacency is a question about one text, asked when it is read alone).      *)
+(* Stage "zone-entries" / "zone-<stage of the first wrong record>"; the          *)
+(* index of that record goes to VP:zoneidx (register 7).                         *)
 EXTENDS PresentRR, TraceBase
 
 VARIABLE l
@@ -30,11 +39,9 @@ Ev == Trace[l]
 Frame(e) == DecRRFrame(e.wire, 0)
 FrameOK(e) == LET fr == Frame(e) IN fr.ok /\ fr.next = Len(e.wire)
 
-Stage(e) ==
-  LET rr == Frame(e).rr
-      L  == Lex(e.text) IN
-  IF ~OnlyMasterSyntaxL(e.text, L) THEN "syntax"
-  ELSE LET r == ReadRecordL(L, e.hk) IN
+\* the record rr against the lexed text L of one entry
+RecStage(rr, L, hk) ==
+       LET r == ReadRecordL(L, hk) IN
     IF ~r.ok THEN "read-" \o r.why
     ELSE IF r.name # rr.name THEN "owner"
     ELSE IF r.ttl # rr.ttl THEN "ttl"
@@ -44,14 +51,41 @@ Stage(e) ==
     ELSE IF r.amb /\ rr.type \notin {64, 65} THEN "adjacent"
     ELSE "ok"
 
+Stage(e) ==
+  LET L == Lex(e.text) IN
+  IF ~OnlyMasterSyntaxL(e.text, L) THEN "syntax" ELSE RecStage(Frame(e).rr, L, e.hk)
+
+IsZone(e) == "zone" \in DOMAIN e
+ZFrame(e, i) == DecRRFrame(e.wires[i], 0)
+ZoneFramesOK(e) == /\ Len(e.wires) >= 1 /\ Len(e.hks) = Len(e.wires)
+                   /\ \A i \in 1..Len(e.wires) : ZFrame(e, i).ok /\ ZFrame(e, i).next = Len(e.wires[i])
+ZoneInside(e) == \A i \in 1..Len(e.wires) : InAlphabet(ZFrame(e, i).rr.type, ZFrame(e, i).rr.rdata)
+\* << index of the first wrong record (0: none), stage >>
+ZoneStage(e) ==
+  LET L == Lex(e.text) IN
+  IF ~OnlyMasterSyntaxL(e.text, L) THEN <<1, "zone-syntax">>
+  ELSE LET es == Entries(L.toks) IN
+    IF Len(es) # Len(e.wires) THEN <<1, "zone-entries">>
+    ELSE LET st  == [i \in 1..Len(es) |-> RecStage(ZFrame(e, i).rr, [L EXCEPT !.toks = Append(es[i], NL), !.amb = FALSE], e.hks[i])]
+             bad == { i \in 1..Len(es) : st[i] # "ok" }
+         IN IF bad = {} THEN <<0, "ok">> ELSE LET i == CHOOSE j \in bad : \A k \in bad : j <= k IN <<i, "zone-" \o st[i]>>
+
 (* Negative probes (`neg' present): the harness' RFC 3597 rendering with a stated length one too large / too  *)
 (* small.  The reader refuses it (if not: harness bug); the library must have refused it too.                 *)
 IsNeg(e) == "neg" \in DOMAIN e
 NegStage(e) == IF ReadRecord(e.text, <<>>).ok THEN "ill" ELSE IF e.accepted THEN "generic-wrong-length-accepted" ELSE "ok"
 
-Init == l = 1 /\ HWInit /\ TLCSet(3, <<>>) /\ TLCSet(4, <<>>) /\ TLCSet(5, <<>>) /\ TLCSet(6, <<>>)
+Init == l = 1 /\ HWInit /\ TLCSet(3, <<>>) /\ TLCSet(4, <<>>) /\ TLCSet(5, <<>>) /\ TLCSet(6, <<>>) /\ TLCSet(7, <<>>)
 Next == /\ l <= Len(Trace)
-        /\ IF ~FrameOK(Ev) THEN TLCSet(3, Append(TLCGet(3), l))
+        /\ IF IsZone(Ev) THEN
+             (IF ~ZoneFramesOK(Ev) THEN TLCSet(3, Append(TLCGet(3), l))
+              ELSE LET zs == ZoneStage(Ev)  inside == ZoneInside(Ev) IN
+                   /\ IF inside THEN TRUE ELSE TLCSet(6, Append(TLCGet(6), l))
+                   /\ IF zs[1] = 0 THEN TRUE
+                      ELSE /\ TLCSet(7, Append(TLCGet(7), <<l, zs[1]>>))
+                           /\ IF ~inside THEN TLCSet(5, Append(TLCGet(5), <<l, zs[2]>>))
+                              ELSE MarkBad(l) /\ TLCSet(4, Append(TLCGet(4), <<l, zs[2]>>)))
+           ELSE IF ~FrameOK(Ev) THEN TLCSet(3, Append(TLCGet(3), l))
            ELSE IF IsNeg(Ev) THEN
                 (LET st == NegStage(Ev) IN
                  IF st = "ok" THEN TRUE
@@ -69,5 +103,6 @@ Accepted5 == /\ PrintT("VP:ill=" \o ToJson(TLCGet(3)))
              /\ PrintT("VP:stages=" \o ToJson(TLCGet(4)))
              /\ PrintT("VP:ambig=" \o ToJson(TLCGet(5)))
              /\ PrintT("VP:outalpha=" \o ToJson(TLCGet(6)))
+             /\ PrintT("VP:zoneidx=" \o ToJson(TLCGet(7)))
              /\ Accepted
 =============================================================================
